@@ -15,6 +15,7 @@ def finding_matches(f, prop, v):
     if f.get("status") != "known": return False
     if f["property"] != prop: return False
     if f.get("harness") and f["harness"] != v["harness"]: return False
+    if f.get("harness_prefix") and not v["harness"].startswith(f["harness_prefix"]): return False
     if f["check"] != v["check"]: return False
     for t in f.get("tags", []):
         if t not in v["tags"]: return False
@@ -81,7 +82,7 @@ def run_property(prop_id, cfg, tier, seed):
         deadline = time.time() + h.get("budget_s", {}).get(tier, 600 if tier == "quick" else 3600)
         pool = mp.Pool(nproc, initializer=ex_mod._init, initargs=(pk, params, tl, h.get("max_steps", 3_000_000), os.path.join(build.BUILD, "qlog")))
         try:
-            ex = ex_mod.explore(pool, h["name"], max_paths=h.get("max_paths", {}).get(tier, 50000), deadline=deadline, seed=seed)
+            ex = ex_mod.explore(pool, h.get("fn", h["name"]), label=h["name"], max_paths=h.get("max_paths", {}).get(tier, 50000), deadline=deadline, seed=seed)
         finally:
             pool.terminate(); pool.join()
         rec = {"harness": h["name"], "params": params, "paths": ex.paths, "path_status": ex.status, "mir_steps": ex.steps, "solver_queries": ex.queries,
@@ -100,7 +101,7 @@ def run_property(prop_id, cfg, tier, seed):
         if missing: inconclusive.append("%s: vacuity witnesses not reached: %s" % (h["name"], missing))
         rec["samples"] = ex.samples
         for v in ex.violations:
-            v["params"] = params; all_viol.append(v)
+            v["params"] = params; v["fn"] = h.get("fn", h["name"]); all_viol.append(v)
     # ---- violations: dedupe by (harness, check, tags), replay natively, classify
     groups = {}
     for v in all_viol:
@@ -119,7 +120,7 @@ def run_property(prop_id, cfg, tier, seed):
         ok = None; out = ""
         rp = os.path.join(EVID, "replays", "%s-%s-%s.replay" % (prop_id, v["harness"], hashlib.sha1(repr(key).encode()).hexdigest()[:8]))
         if binary and v["inputs"] is not None:
-            ok, out = native_replay(binary, v["harness"], v, v["params"], rp)
+            ok, out = native_replay(binary, v["fn"], v, v["params"], rp)
         json.dump({"property": prop_id, "harness": v["harness"], "check": v["check"], "tags": v["tags"], "inputs": v["inputs"], "sched": v["sched"], "msg": v["msg"],
                    "native_replay": ok, "native_output_tail": out, "params": v["params"]}, open(rp + ".json", "w"), indent=1)
         if ok is not True:
